@@ -100,10 +100,10 @@ fn glyph_class_list_member(parser: &mut Parser, recovery: TokenSet) -> bool {
     let looks_like_range = parser.matches(1, Kind::Hyphen)
         || (parser.matches(0, Kind::Backslash) && parser.matches(2, Kind::Hyphen));
     if looks_like_range {
+        // if this fails we may not have advanced, and must not be called again
         parser.in_node(AstKind::GlyphRange, |parser| {
-            glyph_range(parser, recovery.add(Kind::RSquare));
-        });
-        true
+            glyph_range(parser, recovery.add(Kind::RSquare))
+        })
     } else {
         eat_glyph_name_like(parser)
     }
@@ -243,6 +243,18 @@ mod tests {
             eat_glyph_name_like(&mut parser);
             assert_eq!(sink.errors().len(), 1, "'{raw}'");
         }
+    }
+
+    // a range with no start glyph, followed by a recovery token: this used
+    // to report success without advancing, and so loop forever.
+    #[test]
+    fn malformed_range_terminates() {
+        let fea = "[;-";
+        let mut sink = AstSink::new(fea, FileId::CURRENT_FILE, None);
+        let mut parser = Parser::new(fea, &mut sink);
+        eat_glyph_class_list(&mut parser, TokenSet::new(&[Kind::Semi]));
+        assert!(parser.matches(0, Kind::Semi));
+        assert!(!sink.errors().is_empty());
     }
 
     #[test]
